@@ -132,23 +132,23 @@ func (cache *H264Cache) getPalyloadType(payload []byte) (sps, pps, islice bool) 
 		//  |                               +-+-+-+-+-+-+-+-+-+-+-+-+-+-+-+-+
 		//  |                               :...OPTIONAL RTP padding        |
 		//  +-+-+-+-+-+-+-+-+-+-+-+-+-+-+-+-+-+-+-+-+-+-+-+-+-+-+-+-+-+-+-+-+
-		off := 1
-		// 循环读取被封装的NAL
-		for {
+		rest := payload[1:] // 跳过 STAP-A NAL HDR
+		// 循环读取被封装的NAL；每次至少需要 2 字节长度 + 1 字节 NAL 头
+		for len(rest) > 2 {
 			// nal长度
-			nalSize := ((uint16(payload[off])) << 8) | uint16(payload[off+1])
+			nalSize := int(uint16(rest[0])<<8 | uint16(rest[1]))
 			if nalSize < 1 {
 				return
 			}
 
-			off += 2
-			realNALU := byte(payload[off] & 0x1f)
+			realNALU := byte(rest[2] & 0x1f)
 			cache.nalType(realNALU, &sps, &pps, &islice) // 当前NAL类型
-			off += int(nalSize)
 
-			if off >= len(payload) { // 扫描完成
+			rest = rest[2:]
+			if nalSize >= len(rest) { // 扫描完成(或包被截断)
 				break
 			}
+			rest = rest[nalSize:]
 		}
 	case h264.NalFuAInRtp, h264.NalFuBInRtp:
 		// 分片包
